@@ -28,6 +28,11 @@ pub enum Case {
     /// `steps` proposals "fires" when at least one of them was accepted (the returned state is
     /// not the input).  The number of firing runs is Binomial(runs, 1 - (1 - e^-ratio)^steps).
     Tail { ratio: f64, kt: f64, steps: u64, runs: u64, first_seed: u64 },
+    /// cooled to nothing and far beyond: kT starts at `kt` and is multiplied by `1 - kt_ratio`
+    /// every `inner` steps for `loops` loops (more than a 31-/32-bit counter holds); every
+    /// proposal is worse by 1e300, so exp(-d/kT) = 0 at every temperature of the schedule and
+    /// nothing may ever be accepted
+    LongCold { kt: f64, kt_ratio: f64, loops: u64, inner: u64, seed: u64 },
 }
 
 /// lean state for the tail runs: no sink, no lock - score is 0 for the starting vector and
@@ -234,6 +239,20 @@ pub fn check(c: &Case, st: &mut Stats) {
                 go!(PackedState::from_group(s, &wg))
             }
         }
+        Case::LongCold { kt, kt_ratio, loops, inner, seed } => {
+            st.eval();
+            let mut b = packing::BuildOptimiser::default();
+            b.steps(loops * inner).inner_steps(*inner).kt_start(*kt).kt_ratio(Some(*kt_ratio)).max_step_size(1e-6).seed(*seed);
+            let out = std::panic::catch_unwind(std::panic::AssertUnwindSafe(|| {
+                let fin = b.build().optimise_state(TailState::new(1e300));
+                crate::observe::spy::params_of(&fin).iter().any(|x| *x != 0.)
+            }));
+            st.add("proposals_in_long_cold_runs", loops * inner);
+            st.nontrivial(hash64(&[*loops, *inner, *seed, q(*kt_ratio, 1e-9)]));
+            if let Ok(true) = out {
+                st.violation(viol("accepted-with-probability-zero", c, json!({"what": "every proposal is worse by 1e300: exp(-d/kT) underflows to 0 at every temperature of the schedule, yet a proposal was accepted", "loops": loops, "inner_steps": inner})));
+            }
+        }
         Case::Tail { ratio, kt, steps, runs, first_seed } => {
             use rayon::prelude::*;
             st.eval();
@@ -377,7 +396,7 @@ pub fn check(c: &Case, st: &mut Stats) {
 }
 
 pub fn run(ctx: &Ctx) {
-    ctx.set_rule("deterministic clauses on every resolved decision of scripted histories (better / equal / worse / undefined scores in adversarial orders) and of real hard/LJ states at a known constant temperature (kt_ratio = 0 or a single loop): undefined never accepted, better and equal always accepted, worse never accepted at kT = 0 nor when d/kT > 800, always when d/kT < 1e-17. Probabilistic clause: anchor/probe/sentinel scripts (anchor strictly better: always accepted; probe = anchor - d: the observation; sentinel undefined: certain rejection, so the probe's fate is read off the next vectors) at d/kT in {0.05,0.2,0.5,1,2,4,8} x kT in {1e-6,1e-3,0.1,0.5,10,1e6} x k in {4,16}, one loop and several loops; acceptance count vs Binomial(n, exp(-d/kT)) flagged only when the Chernoff/KL bound is < 1e-12; lag-1 autocorrelation of the accept sequence within 7/sqrt(n). Short runs: thousands of one- and two-step runs with different seeds, the acceptance of the worse proposal tallied per moved parameter and per direction of the preceding move (the deciding draw must not be correlated with the proposing draws). Far tail: runs in which every proposal is worse by d = 10..22 kT; the number of runs with at least one acceptance is compared with Binomial(runs, 1 - (1 - e^(-d/kT))^steps) (quick: 1.5e10 proposals at d = 20.05 kT, p = 2e-9; thorough: up to 7e11 proposals at d = 24 kT, p = 4e-11). Non-trivial = (d,kT) cells with >= 1e4 resolved probes, and runs with resolved decisions; distinct by cell/case");
+    ctx.set_rule("deterministic clauses on every resolved decision of scripted histories (better / equal / worse / undefined scores in adversarial orders) and of real hard/LJ states at a known constant temperature (kt_ratio = 0 or a single loop): undefined never accepted, better and equal always accepted, worse never accepted at kT = 0 nor when d/kT > 800, always when d/kT < 1e-17. Probabilistic clause: anchor/probe/sentinel scripts (anchor strictly better: always accepted; probe = anchor - d: the observation; sentinel undefined: certain rejection, so the probe's fate is read off the next vectors) at d/kT in {0.05,0.2,0.5,1,2,4,8} x kT in {1e-6,1e-3,0.1,0.5,10,1e6} x k in {4,16}, one loop and several loops; acceptance count vs Binomial(n, exp(-d/kT)) flagged only when the Chernoff/KL bound is < 1e-12; lag-1 autocorrelation of the accept sequence within 7/sqrt(n). Short runs: thousands of one- and two-step runs with different seeds, the acceptance of the worse proposal tallied per moved parameter and per direction of the preceding move (the deciding draw must not be correlated with the proposing draws). Far tail: runs in which every proposal is worse by d = 10..22 kT; the number of runs with at least one acceptance is compared with Binomial(runs, 1 - (1 - e^(-d/kT))^steps) (quick: 1.5e10 proposals at d = 20.05 kT, p = 2e-9; thorough: up to 7e11 proposals at d = 24 kT, p = 4e-11). Cooled to nothing and far beyond: one-step loops cooling by a factor 0.5/0.99/0.001 for more than 2^31 (thorough: also 2^32) loops, every proposal worse by 1e300, nothing may be accepted at any temperature of the schedule. Non-trivial = (d,kT) cells with >= 1e4 resolved probes, and runs with resolved decisions; distinct by cell/case");
     ctx.assume("a statistical clause: deviations below the resolution of n probes are invisible; the false-alarm probability per cell is < 1e-12 by construction");
     let n_s = ctx.tier.pick(40u64, 2_000u64);
     let n_r = ctx.tier.pick(4u64, 150u64);
@@ -454,6 +473,18 @@ pub fn run(ctx: &Ctx) {
             ctx.merge(s);
         }
     }
+    // cooled to nothing and far beyond, on threads of their own while the tails run
+    let long_cold: Vec<std::thread::JoinHandle<Stats>> = (0..ctx.tier.pick(1u64, 6u64))
+        .map(|i| {
+            let loops = if i % 3 == 2 { (1u64 << 32) + 50_000 + i } else { (1u64 << 31) + 50_000 + i };
+            let c = Case::LongCold { kt: [1., 1e-3, 50.][(i % 3) as usize], kt_ratio: [0.5, 0.01, 0.999][((i + seed) % 3) as usize], loops, inner: 1, seed: seed.wrapping_mul(31).wrapping_add(i) };
+            std::thread::spawn(move || {
+                let mut st = Stats::new();
+                check(&c, &mut st);
+                st
+            })
+        })
+        .collect();
     // the far tail of the acceptance probability (rare acceptances must still happen)
     {
         let tails: Vec<(f64, u64, u64)> = match ctx.tier {
@@ -464,6 +495,12 @@ pub fn run(ctx: &Ctx) {
             let mut st = Stats::new();
             check(&Case::Tail { ratio: *ratio, kt: [0.5, 1e-3, 10.][i % 3], steps: *steps, runs: *runs, first_seed: seed.wrapping_mul(7_000_003).wrapping_add(i as u64 * 1_000_000_000) }, &mut st);
             ctx.merge(st);
+        }
+    }
+    for h in long_cold {
+        match h.join() {
+            Ok(st) => ctx.merge(st),
+            Err(_) => ctx.inconclusive("a long cold run did not finish"),
         }
     }
     std::panic::set_hook(prev);
